@@ -1203,7 +1203,15 @@ def oracle_stream(ctx, rng, nprng, quick):
         steps = [[rng.choice(["sig", "dist", "direct", "self", "twins"]),
                   rng.choice(["white", "corr", "aaft", "raaft"]), rng.choice(["pearson", "mi"]),
                   rng.choice([1, 2, 10, 100])] for _ in range(rng.randrange(2, 6))]
-        add("surr_hist", [A(x, rng.choice(["float64", "float32"]))], [], "history:surrogates",
+        hcls = "history:surrogates"
+        if rng.random() < 0.3:                            # IEEE specials in the data the object holds
+            sp = rng.choice(["inf", "-inf", "nan", "inf-row"])
+            if sp == "inf-row":
+                x[rng.randrange(N)] = np.inf
+            else:
+                x[rng.randrange(N), rng.randrange(T)] = float(sp)
+            hcls += ":held-" + sp
+        add("surr_hist", [SX(x, rng.choice(["float64", "float32"]))], [], hcls,
             steps=steps, timeout=60)
     for _ in range(6 if quick else 50):
         n = rng.randrange(1, 9)
